@@ -14,7 +14,17 @@ TRUSTED_BASE = [
 
 STD = {"name": "std", "gen": "std"}
 
+SIDE_NOTE = "stateful stream: each case starts with a reset op; non-trivial = the implementation produced a non-error result; distinct by op line within its case"
+
 PROPS = {
+    "C05": {"lean": ["C05"], "streams": [{"name": "rr", "gen": "rr"}],
+            "rule": "exhaustive add/remove/dispatch sequences (canonical address order) plus seeded random histories on the real RoundRobinBackend; " + SIDE_NOTE},
+    "C18": {"lean": ["C18"], "streams": [{"name": "route", "gen": "route"}],
+            "rule": "exhaustive route tables over the pattern universe x all hosts, each lookup repeated 50 times, plus random larger tables; " + SIDE_NOTE},
+    "C19": {"lean": ["C19"], "streams": [{"name": "res", "gen": "res"}],
+            "rule": "exhaustive and random resolution-outcome histories fed to addressResolved with real UDP/TCP backends; " + SIDE_NOTE},
+    "C15": {"lean": ["C15"], "streams": [{"name": "pins", "gen": "pins"}],
+            "rule": "seeded pin/lookup/terminate/wait histories on the real DialogBasedBackend under a virtual clock; " + SIDE_NOTE},
     "C14": {
         "lean": ["C14"], "expected": ["Tables"],
         "streams": [STD, {"name": "codec", "gen": "codec"}],
